@@ -193,7 +193,9 @@ def _sfs_bnl_core(data, sorted_idx, offsets, n_total_groups, result_mask):
                     if v < g_min_c1:
                         g_min_c1 = v
                     i_end += 1
-                if g_min_c1 < best_c1:
+                # The first run has nothing before it that could dominate it (best_c1 is
+                # only a sentinel there, which values >= 1e308 such as +inf do not beat).
+                if i_start == 0 or g_min_c1 < best_c1:
                     for k in range(i_start, i_end):
                         if local[order[k], 1] == g_min_c1:
                             result_mask[group_idx[order[k]]] = True
